@@ -133,6 +133,7 @@ def program_law(template: int, e0: int, e1: int, none_kind: int, nested_at: int)
 	pre: TEMPLATE is None or template == TEMPLATE
 	pre: FULL or e1 == (e0 * 7 + 3) % len(EXPRS)
 	pre: 0 <= none_kind < len(NONE_KINDS) and 0 <= nested_at < 4
+	pre: not FULL or nested_at == 0 or nested_at == 2
 	post: _
 	"""
 	return ok(natively(check_program, decode(template, len(TEMPLATES)), decode(e0, len(EXPRS)), decode(e1, len(EXPRS)), decode(none_kind, len(NONE_KINDS)), [0, 1, 3, 7][decode(nested_at, 4)]))
